@@ -108,6 +108,7 @@ func c12Exprs(seed uint64) []*gen.Expr {
 			gen.Func("map", gen.ExpRef(or), gen.Field("big")),
 		)
 	}
+	trees = append(trees, c06HandBacks(true)...)
 	for _, lit := range []bool{false, true} {
 		for _, c := range c06Calls(lit, base) {
 			ns := c06Nestings(c)
